@@ -341,16 +341,26 @@ theorem escape_attr (ver : Ver) (e : Enc) (ha : AsciiOk e) (c : Nat)
 
 /-! ## code points through the three writers -/
 
+theorem notCharCheck_ok (e : Enc) (c : Nat) (h1 : isLow c = false) (h2 : c ≠ 0) (h3 : c < 0xFFFE) :
+    notCharCheck e c = .ok () := by
+  unfold notCharCheck
+  have h4 : ¬ (c = 0 ∨ c ≥ 0xFFFE) := by omega
+  cases e.fx.rejectNonChar <;> simp [h1, h4]
+
 theorem wNCB_ncr (ver : Ver) (e : Enc) (c : Nat) (rest : List Nat) (it : List Item)
+    (hok : notCharCheck e c = .ok ())
     (h : ver = .v11 ∧ c = 0x2028) (hit : fNCR e c = .ok it) :
     writeNormalizedCharBig ver e c rest = .ok (it, false) := by
   unfold writeNormalizedCharBig
+  simp only [hok, bind, Except.bind]
   rw [if_pos h]
-  simp only [hit, bind, Except.bind, pure, Except.pure]
+  simp only [hit, pure, Except.pure]
 
-theorem wNCB_cp (ver : Ver) (e : Enc) (c : Nat) (rest : List Nat) (h : ¬ (ver = .v11 ∧ c = 0x2028)) :
+theorem wNCB_cp (ver : Ver) (e : Enc) (c : Nat) (rest : List Nat) (hok : notCharCheck e c = .ok ())
+    (h : ¬ (ver = .v11 ∧ c = 0x2028)) :
     writeNormalizedCharBig ver e c rest = wCP e false c rest := by
   unfold writeNormalizedCharBig
+  simp only [hok, bind, Except.bind]
   rw [if_neg h]
 
 theorem encodeOut_single (k : WK) (c : Nat) :
@@ -365,8 +375,13 @@ theorem wCP_bmp (e : Enc) (ha : AsciiOk e) (c : Nat) (rest : List Nat) (hs : IsS
   unfold wCP canEncOf
   cases hk : e.kind with
   | utf16 =>
-    simp only [↓reduceIte]
-    exact ⟨_, rfl, by rw [encodeOut_single]; simp [h16, unitsOf, Item.units]⟩
+    cases hf : e.fx.utf16Pairs with
+    | false =>
+      simp only [↓reduceIte, Bool.false_eq_true]
+      exact ⟨_, rfl, by rw [encodeOut_single]; simp [h16, unitsOf, Item.units]⟩
+    | true =>
+      simp only [↓reduceIte, hd, bind, Except.bind, pure, Except.pure]
+      exact ⟨_, rfl, by rw [encodeOut_single]; simp [h16, unitsOf, Item.units]⟩
   | utf8 =>
     obtain ⟨it, hit, hu⟩ := utf8Scalar_units c hs
     simp only [hd, hit, bind, Except.bind, pure, Except.pure, ↓reduceIte]
@@ -391,6 +406,17 @@ theorem wCP_two_utf8 (e : Enc) (hk : e.kind = .utf8) (c hi lo : Nat) (rest : Lis
   unfold wCP
   simp only [hk, hd, hit, bind, Except.bind, pure, Except.pure]
   exact ⟨it, rfl, hu⟩
+
+theorem wCP_two_utf16 (e : Enc) (hk : e.kind = .utf16) (hf : e.fx.utf16Pairs = true) (c hi lo : Nat) (rest : List Nat)
+    (hd : decodeHead hi (lo :: rest) = .ok (c, true)) :
+    wCP e false hi (lo :: rest) = .ok ([.one hi, .one lo], true) := by
+  unfold wCP
+  simp only [hk, hf, ↓reduceIte, hd, bind, Except.bind, pure, Except.pure]
+
+theorem wCP_utf16_unchecked (e : Enc) (hk : e.kind = .utf16) (hf : e.fx.utf16Pairs = false) (c : Nat) (rest : List Nat) :
+    wCP e false c rest = .ok ([.one c], false) := by
+  unfold wCP
+  simp only [hk, hf, ↓reduceIte, Bool.false_eq_true]
 
 theorem wCP_two_other (e : Enc) (hk : e.kind = .other) (c hi lo : Nat) (rest : List Nat) (hgt : c > 0xFFFF)
     (hd : decodeHead hi (lo :: rest) = .ok (c, true))
@@ -443,6 +469,7 @@ theorem escLoop_refines (ver : Ver) (e : Enc) (ha : AsciiOk e) (attr : Bool) (sp
     (hsp : ∀ c, sp c = (if attr then pAttribute ver c else pContent ver c))
     (hesc : ∀ c, c ≤ lastSpecial ver → sp c = true → legalChar ver c = true →
       ∃ it x, esc c = .ok it ∧ absEsc ver (canEncOf e) attr c = .ok x ∧ unitsOf it = x ∧ Ascii x)
+    (hcons : e.fx.rejectNonChar = true → e.fx.utf16Pairs = true)
     (cs : List Nat) (hl : ∀ c ∈ cs, legalChar ver c = true) (pend : List Nat) (hp : Ascii pend) :
     ∃ items out, escLoop ver e sp esc (utf16Encode cs) false pend = .ok items ∧
       absEscAll ver (canEncOf e) attr cs = .ok out ∧ unitsOf items = pend ++ encodeOut e.kind out := by
@@ -466,10 +493,15 @@ theorem escLoop_refines (ver : Ver) (e : Enc) (ha : AsciiOk e) (attr : Bool) (sp
       simp only [List.cons_append, List.nil_append]
       by_cases hr : c > lastSpecial ver
       · have hpr : pRange ver c = true := by simp [pRange, hr]
+        have hokc : notCharCheck e c = .ok () := by
+          have h127 := lastSpecial_ge ver
+          obtain ⟨q1, q2⟩ := hs
+          refine notCharCheck_ok e c (by simp [isLow]; omega) (by omega) ?_
+          cases ver <;> simp [legalChar] at hlc <;> omega
         obtain ⟨items', out', hi', ho', hu'⟩ := ih hl' [] (by intro u hu; simp at hu)
         by_cases h28 : ver = .v11 ∧ c = 0x2028
         · obtain ⟨it, hit, hitu⟩ := fNCR_units e ha c
-          have hw := wNCB_ncr ver e c (utf16Encode cs) it h28 hit
+          have hw := wNCB_ncr ver e c (utf16Encode cs) it hokc h28 hit
           refine ⟨_, _, escLoop_range ver e sp esc c _ pend it items' false hpr hw hi',
             absEscAll_cons _ _ _ _ _ _ _ (absEsc_lsep ver _ attr c h28) ho', ?_⟩
           rw [unitsOf_append, unitsOf_append, safeWrite_ascii e ha pend hp, hitu, hu', encodeOut_append,
@@ -477,7 +509,7 @@ theorem escLoop_refines (ver : Ver) (e : Enc) (ha : AsciiOk e) (attr : Bool) (sp
           simp
         · obtain ⟨it, hit, hitu⟩ := wCP_bmp e ha c (utf16Encode cs) hs hb
           have hw : writeNormalizedCharBig ver e c (utf16Encode cs) = .ok (it, false) := by
-            rw [wNCB_cp ver e c _ h28]; exact hit
+            rw [wNCB_cp ver e c _ hokc h28]; exact hit
           refine ⟨_, _, escLoop_range ver e sp esc c _ pend it items' false hpr hw hi',
             absEscAll_cons _ _ _ _ _ _ _ (absEsc_range ver _ attr c hr h28) ho', ?_⟩
           rw [unitsOf_append, unitsOf_append, safeWrite_ascii e ha pend hp, hitu, hu', encodeOut_append]
@@ -523,6 +555,8 @@ theorem escLoop_refines (ver : Ver) (e : Enc) (ha : AsciiOk e) (attr : Bool) (sp
       have hlo : pRange ver (0xDC00 + (c - 0x10000) % 1024) = true := by simp [pRange]; omega
       have h28hi : ¬ (ver = .v11 ∧ 0xD800 + (c - 0x10000) / 1024 = 0x2028) := by omega
       have h28lo : ¬ (ver = .v11 ∧ 0xDC00 + (c - 0x10000) % 1024 = 0x2028) := by omega
+      have hokhi : notCharCheck e (0xD800 + (c - 0x10000) / 1024) = .ok () :=
+        notCharCheck_ok e _ (by simp [isLow]; omega) (by omega) (by omega)
       obtain ⟨items', out', hi', ho', hu'⟩ := ih hl' [] (by intro u hu; simp at hu)
       have hx := absEsc_range ver (canEncOf e) attr c hr h28
       cases hk : e.kind with
@@ -530,7 +564,7 @@ theorem escLoop_refines (ver : Ver) (e : Enc) (ha : AsciiOk e) (attr : Bool) (sp
         obtain ⟨it, hit, hitu⟩ := wCP_two_utf8 e hk c _ _ (utf16Encode cs) ⟨hs1, hs2⟩ hdh
         have hw : writeNormalizedCharBig ver e (0xD800 + (c - 0x10000) / 1024)
             ((0xDC00 + (c - 0x10000) % 1024) :: utf16Encode cs) = .ok (it, true) := by
-          rw [wNCB_cp ver e _ _ h28hi]; exact hit
+          rw [wNCB_cp ver e _ _ hokhi h28hi]; exact hit
         have hsk : escLoop ver e sp esc ((0xDC00 + (c - 0x10000) % 1024) :: utf16Encode cs) true [] = .ok items' := by
           rw [escLoop_skip]; exact hi'
         refine ⟨_, _, escLoop_range ver e sp esc _ _ pend it items' true hhi hw hsk,
@@ -542,7 +576,7 @@ theorem escLoop_refines (ver : Ver) (e : Enc) (ha : AsciiOk e) (attr : Bool) (sp
         obtain ⟨it, hit, hitu⟩ := wCP_two_other e hk c _ _ (utf16Encode cs) (by omega) hdh h16 (by omega) (by omega)
         have hw : writeNormalizedCharBig ver e (0xD800 + (c - 0x10000) / 1024)
             ((0xDC00 + (c - 0x10000) % 1024) :: utf16Encode cs) = .ok (it, true) := by
-          rw [wNCB_cp ver e _ _ h28hi]; exact hit
+          rw [wNCB_cp ver e _ _ hokhi h28hi]; exact hit
         have hsk : escLoop ver e sp esc ((0xDC00 + (c - 0x10000) % 1024) :: utf16Encode cs) true [] = .ok items' := by
           rw [escLoop_skip]; exact hi'
         refine ⟨_, _, escLoop_range ver e sp esc _ _ pend it items' true hhi hw hsk,
@@ -551,19 +585,37 @@ theorem escLoop_refines (ver : Ver) (e : Enc) (ha : AsciiOk e) (attr : Bool) (sp
         rw [unitsOf_append, unitsOf_append, safeWrite_ascii e ha pend hp, hitu, hu', hce, encodeOut_append, hk]
         simp
       | utf16 =>
-        have hw1 : writeNormalizedCharBig ver e (0xD800 + (c - 0x10000) / 1024)
-            ((0xDC00 + (c - 0x10000) % 1024) :: utf16Encode cs) = .ok ([.one (0xD800 + (c - 0x10000) / 1024)], false) := by
-          rw [wNCB_cp ver e _ _ h28hi]; simp [wCP, hk]
-        have hw2 : writeNormalizedCharBig ver e (0xDC00 + (c - 0x10000) % 1024) (utf16Encode cs)
-            = .ok ([.one (0xDC00 + (c - 0x10000) % 1024)], false) := by
-          rw [wNCB_cp ver e _ _ h28lo]; simp [wCP, hk]
-        have hstep2 := escLoop_range ver e sp esc _ _ [] _ items' false hlo hw2 hi'
-        refine ⟨_, _, escLoop_range ver e sp esc _ _ pend _ _ false hhi hw1 hstep2,
-          absEscAll_cons _ _ _ _ _ _ _ hx ho', ?_⟩
         have hce : canEncOf e c = true := by simp [canEncOf, hk]
-        simp only [unitsOf_append, safeWrite_ascii e ha pend hp, hu', hce, ↓reduceIte]
-        simp [encodeOut, hk, h16, unitsOf, Item.units, safeWrite]
-
+        cases hf : e.fx.utf16Pairs with
+        | true =>
+          have hw : writeNormalizedCharBig ver e (0xD800 + (c - 0x10000) / 1024)
+              ((0xDC00 + (c - 0x10000) % 1024) :: utf16Encode cs)
+              = .ok ([.one (0xD800 + (c - 0x10000) / 1024), .one (0xDC00 + (c - 0x10000) % 1024)], true) := by
+            rw [wNCB_cp ver e _ _ hokhi h28hi]; exact wCP_two_utf16 e hk hf c _ _ _ hdh
+          have hsk : escLoop ver e sp esc ((0xDC00 + (c - 0x10000) % 1024) :: utf16Encode cs) true [] = .ok items' := by
+            rw [escLoop_skip]; exact hi'
+          refine ⟨_, _, escLoop_range ver e sp esc _ _ pend _ items' true hhi hw hsk,
+            absEscAll_cons _ _ _ _ _ _ _ hx ho', ?_⟩
+          simp only [unitsOf_append, safeWrite_ascii e ha pend hp, hu', hce, ↓reduceIte]
+          simp [encodeOut, hk, h16, unitsOf, Item.units]
+        | false =>
+          have hrn : e.fx.rejectNonChar = false := by
+            cases h : e.fx.rejectNonChar with
+            | false => rfl
+            | true => have := hcons h; rw [hf] at this; cases this
+          have hoklo : notCharCheck e (0xDC00 + (c - 0x10000) % 1024) = .ok () := by
+            unfold notCharCheck; simp [hrn]
+          have hw1 : writeNormalizedCharBig ver e (0xD800 + (c - 0x10000) / 1024)
+              ((0xDC00 + (c - 0x10000) % 1024) :: utf16Encode cs) = .ok ([.one (0xD800 + (c - 0x10000) / 1024)], false) := by
+            rw [wNCB_cp ver e _ _ hokhi h28hi]; exact wCP_utf16_unchecked e hk hf _ _
+          have hw2 : writeNormalizedCharBig ver e (0xDC00 + (c - 0x10000) % 1024) (utf16Encode cs)
+              = .ok ([.one (0xDC00 + (c - 0x10000) % 1024)], false) := by
+            rw [wNCB_cp ver e _ _ hoklo h28lo]; exact wCP_utf16_unchecked e hk hf _ _
+          have hstep2 := escLoop_range ver e sp esc _ _ [] _ items' false hlo hw2 hi'
+          refine ⟨_, _, escLoop_range ver e sp esc _ _ pend _ _ false hhi hw1 hstep2,
+            absEscAll_cons _ _ _ _ _ _ _ hx ho', ?_⟩
+          simp only [unitsOf_append, safeWrite_ascii e ha pend hp, hu', hce, ↓reduceIte]
+          simp [encodeOut, hk, h16, unitsOf, Item.units, safeWrite]
 
 /-! ## the characters written are scalar values -/
 
@@ -630,10 +682,11 @@ theorem esc_roundtrip (ver : Ver) (e : Enc) (ha : AsciiOk e) (attr : Bool) (sp :
     (hsp : ∀ c, sp c = (if attr then pAttribute ver c else pContent ver c))
     (hesc : ∀ c, c ≤ lastSpecial ver → sp c = true → legalChar ver c = true →
       ∃ it x, esc c = .ok it ∧ absEsc ver (canEncOf e) attr c = .ok x ∧ unitsOf it = x ∧ Ascii x)
+    (hcons : e.fx.rejectNonChar = true → e.fx.utf16Pairs = true)
     (cs : List Nat) (hl : ∀ c ∈ cs, legalChar ver c = true) :
     ∃ items out, escLoop ver e sp esc (utf16Encode cs) false [] = .ok items ∧
       decodeOut e.kind (unitsOf items) = some out ∧ readAll ver attr out = some cs := by
-  obtain ⟨items, out, h1, h2, h3⟩ := escLoop_refines ver e ha attr sp esc hsp hesc cs hl [] (by intro u hu; simp at hu)
+  obtain ⟨items, out, h1, h2, h3⟩ := escLoop_refines ver e ha attr sp esc hsp hesc hcons cs hl [] (by intro u hu; simp at hu)
   obtain ⟨out', h4, h5⟩ := readAll_absEscAll ver (canEncOf e) attr cs hl
   rw [h2] at h4; injection h4 with h4; subst h4
   refine ⟨items, out, h1, ?_, h5⟩
